@@ -16,6 +16,7 @@ from mc.core import Acc, Violation
 from mc.ref.digest import ref_sites, ref_items, select, ref_digest, ref_digest_plain
 
 PROPERTY = "C17"
+SIZE_MODULES = ['mokapot.parsers.fasta']  # see mc.runner._sized_passes
 LEVEL = "exploration"
 RULE = (
     "cases = (sequence, enzyme pattern, str/compiled, missed cleavages, min_length, max_length, clip, semi), "
